@@ -929,6 +929,11 @@ static int _parse_inline(qaconf_t *qaconf, FILE *fp, uint8_t flags,
 
         // Section handling
         if (cbdata->otype == QAC_OTYPE_SECTIONOPEN) {
+            // level is a 8 bit counter and every level is a recursive call
+            if (cbdata->level == UINT8_MAX) {
+                EXITLOOP("Sections are nested too deep.");
+            }
+
             // Enter recursive call
             DEBUG("Entering next level %d.", cbdata->level+1);
             int optcount2 = _parse_inline(qaconf, fp, flags, newsectionid,
